@@ -239,7 +239,15 @@ func replayPath(ctx *vrun.Ctx, prop string, f *Factory, path []tlc.Step, cache u
 				viol("tip-not-ideal-with-headers:"+op, fmt.Sprintf("%s: active tip is block %d, expected one of %v", where, tip, exp.F("tips").Go()))
 				return nil
 			}
-			if d := node.CheckHeaderViews(); d != "" {
+			clean := func(b int) bool {
+				for _, x := range f.Sc.Path(b) {
+					if f.Sc.Flaw[x] != "none" || contains(s["manual"], x) {
+						return false
+					}
+				}
+				return true
+			}
+			if d := node.CheckHeaderViews(clean); d != "" {
 				viol("header-views:"+op, where+": "+d)
 				return nil
 			}
